@@ -52,13 +52,16 @@ _HEX_YAML = None
 
 
 def hex_yaml():
-    """temp YAML selecting the hexagonal arrangement (written once per process)"""
+    """temp YAML selecting the hexagonal arrangement (one fixed file, written atomically if missing)"""
     global _HEX_YAML
     if _HEX_YAML is None or not os.path.exists(_HEX_YAML):
-        d = tempfile.mkdtemp(prefix="snowverif_")
-        _HEX_YAML = os.path.join(d, "hex.yaml")
-        with open(_HEX_YAML, "w") as f:
-            f.write("snowfall_parameters:\n  vial_arrangement: hexagonal\n")
+        path = os.path.join(tempfile.gettempdir(), "snowverif_hexagonal.yaml")
+        if not os.path.exists(path):
+            fd, tmp = tempfile.mkstemp(prefix="snowverif_", suffix=".yaml")
+            with os.fdopen(fd, "w") as f:
+                f.write("snowfall_parameters:\n  vial_arrangement: hexagonal\n")
+            os.replace(tmp, path)
+        _HEX_YAML = path
     return _HEX_YAML
 
 
